@@ -15,6 +15,7 @@
   r2 at entry (the semantic form of the property's exclusion of unset registers).
 -/
 import RbpfModel.Lemmas.ClifSim.All
+import RbpfModel.Lemmas.ClifSim.Total
 import RbpfModel.Props.C04
 import RbpfModel.Lemmas.TaintInterp
 namespace Rbpf
@@ -136,5 +137,30 @@ theorem C04_ir_inclaim (env : Env) (tr : List (Nat × List Op)) (htr : translate
       (Vector.getElem?_setIfInBounds_ne (by decide)) (Vector.getElem?_setIfInBounds_ne (by decide))
   obtain ⟨k, σ', hk, hm', hl'⟩ := C04_ir_interp env tr htr hv m hm fuel hl h7 hal r0 b hb
   exact ⟨k, σ', a, ha, hk, by rw [hm']; exact hmem, by rw [hl']; exact hlog⟩
+
+end Rbpf
+
+/-! ### C12 for Cranelift, at the level of the translator `cranelift.rs` (`ClifAst.translateR` / `compileR` keep its
+    `Err`-versus-panic distinction; `blocksFilled` is the observed condition under which Cranelift's `define_function` panics) -/
+namespace Rbpf
+open Rbpf.ClifAst Rbpf.ClifSim
+
+/-- translating a program the default verifier accepts never panics — no register index out of range, no `unreachable!` /
+    `unimplemented!`, no `try_into().unwrap()` on a jump target, no `get_insn` past the end — and hands Cranelift a function
+    whose blocks are all filled and whose branches all land on instruction starts -/
+theorem C12_ir_total (p : Bytes) (helpers : Nat → Bool) (hv : Verifier.check p = .ok) :
+    compileR helpers p ≠ .error .panic ∧ translateR helpers p ≠ .error .panic :=
+  ⟨clif_compile_total p helpers hv, clif_translate_total p helpers hv⟩
+
+/-- it returns `Err` exactly for an eBPF-to-eBPF call (or another call kind) or a helper id that is not registered -/
+theorem C12_ir_err_iff (p : Bytes) (helpers : Nat → Bool) (hv : Verifier.check p = .ok) :
+    compileR helpers p = .error .err ↔
+      ∃ e ∈ EngineSem.insns p, e.2.opc = 0x85 ∧ (e.2.src ≠ 0 ∨ helpers e.2.imm.toNat = false) :=
+  clif_compile_err_iff p helpers hv
+
+/-- the older bookkeeping model `ClifCompile` (C12_clif_total / C12_clif_err_iff) and the translator model agree on accepted programs -/
+theorem C12_ir_agrees (p : Bytes) (helpers : Nat → Bool) (hv : Verifier.check p = .ok) :
+    (compileR helpers p = .error .err ↔ ClifCompile.compile p helpers = .err) :=
+  (clif_compile_agrees p helpers hv).1
 
 end Rbpf
